@@ -8,7 +8,7 @@ import (
 
 // Every generated function has these parameters; impure operands are calls of the functions declared
 // in Preamble (in differential programs they log their name and return values from a script).
-const Params = "a, b, c int, u, v uint, p, q float64, s, t string, k, l bool, xs []int, bs []byte, ms myStr, mi myInts, mm myMap, ma myArr, pa *myArr, w *wr, mf, mg myF, mc, mc2 myC, fa [2]myF, vv val, it *iter, pe *myE"
+const Params = "a, b, c int, u, v uint, p, q float64, s, t string, k, l bool, xs []int, bs []byte, ms myStr, mi myInts, mm myMap, ma myArr, pa *myArr, w *wr, mf, mg myF, mc, mc2 myC, fa [2]myF, vv val, it *iter, pe *myE, cx complex128"
 
 // Preamble for files that are only analysed (never run).
 const LintPreamble = `
